@@ -3,13 +3,14 @@
 Seam      django_components.util.template_parser.parse_template(src) (the function the
           patched Template.compile_nodelist feeds to Django's Parser) and, part B, the
           public route Template(src) with a debug and a non-debug engine.
-Alphabet  20 (quick) / 22 (thorough) source fragments: text, newline, {{ }}, {# #}, {% %}
-          tags with 0..2 quoted strings (both quote kinds, escaped quote, embedded `%}` /
-          `}}` / newline), a multi-line tag, verbatim openers / closer, unterminated
-          constructs.  The fragments are uniquely decodable, so token sequences are
-          distinct sources.
-Bound     every sequence of <= L fragments (quick L=4 lexer + L=3 public route, thorough
-          L=5 + L=4), each under both values of COMPONENTS.multiline_tags (tag_re with and
+Alphabet  22 source fragments (FRAGMENT_NAMES): text, newline, {{ }}, {# #}, {% %} tags with
+          0..2 quoted strings (both quote kinds, escaped quote, embedded `%}` / `}}` /
+          newline), a multi-line tag, verbatim openers / closers (plain, named, quoted name),
+          unterminated constructs.  The fragments are uniquely decodable, so fragment
+          sequences are distinct sources.
+Bound     every sequence of <= L fragments (quick L=4 lexer + L=3 public route; thorough
+          L=5 + L=4) plus every sequence of exactly L+1 fragments over the 11-fragment
+          sub-alphabet DEEP, each under both values of COMPONENTS.multiline_tags (tag_re with and
           without re.DOTALL - sources without a newline lex identically under both and are
           executed once).
 Oracle    (1) spans contiguous from 0 to len(src), non-empty;
@@ -58,7 +59,16 @@ _CLOSE_OF = {"BLOCK": "%}", "VAR": "}}", "COMMENT": "#}"}
 _NAMES = [("t", "u", "v", "c", "a", "q", "r"), ("x", "w", "n", "k", "b", "p", "s"), ("m", "h", "j", "d", "g", "z", "y")]
 
 
-def alphabet(seed: int, thorough: bool):
+FRAGMENT_NAMES = [
+    "T", "NL", "T_NL_T", "VAR", "VAR_OPEN", "COMMENT", "TAG", "TAG_DQ", "TAG_SQ", "TAG_DQ_CLOSE_INSIDE", "TAG_SQ_VARCLOSE_INSIDE",
+    "TAG_DQ_ESCAPED", "TAG_MULTILINE_DQ", "TAG_DQ_DQ", "VERBATIM", "ENDVERBATIM", "VERBATIM_NAMED", "TAG_DQ_OPEN", "TAG_OPEN",
+    "TAG_DQ_CLOSE_NL_INSIDE", "VERBATIM_DQ", "ENDVERBATIM_DQ",
+]
+# every sequence of exactly L+1 fragments over this sub-alphabet is added to the full enumeration <= L
+DEEP = ["T", "NL", "VAR", "TAG", "TAG_DQ", "TAG_DQ_CLOSE_INSIDE", "TAG_MULTILINE_DQ", "TAG_DQ_CLOSE_NL_INSIDE", "VERBATIM", "ENDVERBATIM", "TAG_DQ_OPEN"]
+
+
+def alphabet(seed: int):
     t, u, v, c, a, q, r = _NAMES[seed % len(_NAMES)]
     A = [
         t,
@@ -81,9 +91,10 @@ def alphabet(seed: int, thorough: bool):
         '{%% %s "%s' % (a, q),
         "{%% %s" % a,
         '{%% %s "%s%%}\n%s" %%}' % (a, q, r),
+        '{%% verbatim "%s" %%}' % q,
+        '{%% endverbatim "%s" %%}' % q,
     ]
-    if thorough:
-        A += ['{%% verbatim "%s" %%}' % q, '{%% endverbatim "%s" %%}' % q]
+    assert len(A) == len(FRAGMENT_NAMES)
     return A
 
 
@@ -369,74 +380,87 @@ def route_case(src: str, dotall: bool, tag_name: str):
 
 
 # ------------------------------------------------------------------ enumeration
-def _sequences(K: int, L: int, w: int, W: int):
-    """all index tuples of length <= L, smallest first; sharded by the first two symbols"""
-    if w == 0:
-        yield ()
-    for n in range(1, L + 1):
-        if n == 1:
+def _sequences(K: int, lo: int, hi: int, w: int, W: int):
+    """all index tuples of length lo..hi, smallest first; sharded by the first two symbols"""
+    for n in range(lo, hi + 1):
+        if n == 0:
+            if w == 0:
+                yield ()
+        elif n == 1:
             for a in range(K):
                 if a % W == w:
                     yield (a,)
-            continue
-        p = 0
-        for a in range(K):
-            for b in range(K):
-                if p % W == w:
-                    for rest in product(range(K), repeat=n - 2):
-                        yield (a, b) + rest
-                p += 1
+        else:
+            p = 0
+            for a in range(K):
+                for b in range(K):
+                    if p % W == w:
+                        for rest in product(range(K), repeat=n - 2):
+                            yield (a, b) + rest
+                    p += 1
+
+
+def _jobs(thorough: bool):
+    """(part, kind, fragment indices, min length, max length)"""
+    full = list(range(len(FRAGMENT_NAMES)))
+    deep = [FRAGMENT_NAMES.index(n) for n in DEEP]
+    if thorough:
+        return [("lexer", "lex", full, 0, 5), ("public_route", "route", full, 0, 4), ("lexer_deep", "lex", deep, 6, 6)]
+    return [("lexer", "lex", full, 0, 4), ("public_route", "route", full, 0, 3), ("lexer_deep", "lex", deep, 5, 5)]
+
+
+def _job_size(job):
+    K = len(job[2])
+    return sum(K ** n for n in range(job[3], job[4] + 1))
 
 
 def _worker(w, W, payload):
     A = payload["alphabet"]
-    L_lex, L_route = payload["L_lex"], payload["L_route"]
     tag_name = payload["tag_name"]
     agg = par.Agg()
-    best = {}  # (clause, mode) -> (order, what, case)
+    best = {}  # (kind, clause, mode) -> (order, what, case)
 
-    def note(part, clause, text, src, seq, dotall):
+    def note(kind, clause, text, src, seq, dotall):
         mode = "multiline" if dotall else "singleline"
-        key = (part, clause, mode)
+        key = (kind, clause, mode)
         agg.extra["fail:%s:%s:%s" % key] += 1
         order = (len(seq), seq)
         if key not in best or order < best[key][0]:
-            best[key] = (order, text, {"part": part, "src": src, "dotall": dotall, "tag_name": tag_name, "clause": clause})
+            best[key] = (order, text, {"part": kind, "src": src, "dotall": dotall, "tag_name": tag_name, "clause": clause,
+                                       "fragments": "+".join(FRAGMENT_NAMES[i] for i in seq)})
 
+    bogus = "{% bogus %}"
     try:
-        K = len(A)
-        for seq in _sequences(K, L_lex, w, W):
-            src = "".join([A[i] for i in seq])
-            agg.states += 1
-            for dotall in ((True, False) if "\n" in src else (True,)):
-                set_mode(dotall)
-                problem, info = lex_case(src, dotall)
-                agg.transitions += 1
-                agg.validated += 1
-                agg.expected[info["cls"]] += 1
-                if info["obs"] is not None:
-                    agg.observe(repr(info["obs"]))
-                if info["ext"] >= 1 and dotall:
-                    agg.nontrivial += 1
-                if info["ext"] >= 2:
-                    agg.extra["two_or_more_quoted_tags"] += 1
-                if problem:
-                    note("lex", problem[0], problem[1], src, seq, dotall)
-                elif info["cls"] == "kept-close":
-                    agg.sample({"src": src, "multiline_tags": dotall, "tokens": [list(t) for t in info["obs"]][:6]}, limit=1)
-        bogus = "{% bogus %}"
-        for seq in _sequences(K, L_route, w, W):
-            src = "".join([A[i] for i in seq]) + bogus
-            agg.extra["route_states"] += 1
-            for dotall in ((True, False) if "\n" in src else (True,)):
-                set_mode(dotall)
-                problem, info = route_case(src, dotall, tag_name)
-                agg.extra["route_transitions"] += 2
-                agg.extra["routecls:" + info["cls"]] += 1
-                if info["obs"] is not None:
-                    agg.observe(repr(info["obs"]))
-                if problem:
-                    note("route", problem[0], problem[1], src, seq, dotall)
+        for part, kind, idxs, lo, hi in payload["jobs"]:
+            pre = part + ":"
+            for sq in _sequences(len(idxs), lo, hi, w, W):
+                seq = tuple([idxs[i] for i in sq])
+                src = "".join([A[i] for i in seq])
+                agg.extra[pre + "states"] += 1
+                if kind == "route":
+                    src += bogus
+                for dotall in ((True, False) if "\n" in src else (True,)):
+                    set_mode(dotall)
+                    if kind == "lex":
+                        problem, info = lex_case(src, dotall)
+                        agg.extra[pre + "transitions"] += 1
+                        agg.extra[pre + "cls:" + info["cls"]] += 1
+                        if info["ext"] >= 1 and dotall:
+                            agg.extra[pre + "nontrivial"] += 1
+                        if info["ext"] >= 2:
+                            agg.extra[pre + "two_or_more_quoted_tags"] += 1
+                        if not problem and info["cls"] == "kept-close":
+                            agg.sample({"src": src, "multiline_tags": dotall, "tokens": [list(t) for t in info["obs"]][:6]}, limit=1)
+                    else:
+                        problem, info = route_case(src, dotall, tag_name)
+                        agg.extra[pre + "transitions"] += 2
+                        agg.extra[pre + "cls:" + info["cls"]] += 1
+                        if info["cls"] not in ("agnostic", "ok") and dotall:
+                            agg.extra[pre + "nontrivial"] += 1
+                    if info["obs"] is not None:
+                        agg.observed.add((part, hash(repr(info["obs"])) & 0xFFFFFFFFFFFF))
+                    if problem:
+                        note(kind, problem[0], problem[1], src, seq, dotall)
     finally:
         set_mode(True)
     for key, (order, text, case) in best.items():
@@ -447,17 +471,16 @@ def _worker(w, W, payload):
 def run(ctx):
     ev, fnd = ctx.ev, ctx.fnd
     thorough = ctx.tier == "thorough"
-    A = alphabet(ctx.seed, thorough)
+    A = alphabet(ctx.seed)
     tag_name = _NAMES[ctx.seed % len(_NAMES)][4]
-    L_lex, L_route = (5, 4) if thorough else (4, 3)
-    K = len(A)
-    n_lex = sum(K ** n for n in range(L_lex + 1))
-    n_route = sum(K ** n for n in range(L_route + 1))
-    print(f"C09: alphabet {K} fragments; lexer sources <= {L_lex} fragments: {n_lex}; public-route sources <= {L_route}: {n_route}", flush=True)
-    agg = par.run_sharded(_worker, {"alphabet": A, "L_lex": L_lex, "L_route": L_route, "tag_name": tag_name})
-    if agg.states != n_lex or agg.extra["route_states"] != n_route:
-        raise par.HarnessError(f"enumeration incomplete: {agg.states}/{n_lex} lexer sources, {agg.extra['route_states']}/{n_route} route sources")
-    # one report per (part, clause, mode): the smallest failing source
+    jobs = _jobs(thorough)
+    for job in jobs:
+        print(f"C09: {job[0]}: {len(job[2])} fragments, lengths {job[3]}..{job[4]}: {_job_size(job)} sources", flush=True)
+    agg = par.run_sharded(_worker, {"alphabet": A, "jobs": jobs, "tag_name": tag_name})
+    for job in jobs:
+        if agg.extra[job[0] + ":states"] != _job_size(job):
+            raise par.HarnessError(f"enumeration incomplete for {job[0]}: {agg.extra[job[0] + ':states']}/{_job_size(job)} sources")
+    # one report per (part, clause, mode): the smallest failing source, named by its fragments (seed independent)
     groups = {}
     for identity, text, case in agg.failures:
         order = (case["order"][0], tuple(case["order"][1]))
@@ -466,30 +489,37 @@ def run(ctx):
     for identity, (order, text, case) in sorted(groups.items()):
         total = agg.extra["fail:" + identity]
         case = {k: v for k, v in case.items() if k != "order"}
-        fnd.report(f"{identity}:{case['src']!r}", f"{text}  [source {case['src']!r}, multiline_tags={case['dotall']}; {total} failing cases in this clause]", case)
-    expected = Counter({k: v for k, v in agg.expected.items()})
+        fnd.report(f"{identity}:{case['fragments']}",
+                   f"{text}  [source {case['src']!r}, multiline_tags={case['dotall']}; {total} failing cases in this clause]", case)
     ev.rule = (
         "ENUM: every concatenation of <= L alphabet fragments is lexed by parse_template and compared with stock DebugLexer / "
-        "the quote-aware reference lexer; non-trivial = sources in which at least one block tag contains a quote, i.e. the "
-        "hand-over to _detailed_tag_parser and the resume logic really run"
+        "the quote-aware reference lexer (part public_route: compiled by Template() and compared with Django's Parser on the "
+        "reference tokens); non-trivial = sources in which at least one block tag contains a quote, i.e. the hand-over to "
+        "_detailed_tag_parser and the resume logic really run (public_route: sources whose compile error carries a line number)"
     )
-    ev.add_part(
-        "lexer", states=agg.states, transitions=agg.transitions, validated=agg.validated, nontrivial=agg.nontrivial,
-        observed_distinct=len(agg.observed), expected=expected,
-        bound={"fragments": K, "max_fragments": L_lex, "modes": ["multiline_tags=True", "multiline_tags=False (sources containing a newline)"]},
-        samples=agg.samples[:2], extra={"sources_with_two_or_more_quoted_tags_runs": agg.extra["two_or_more_quoted_tags"]},
-    )
-    route_expected = Counter({"route:" + k[len("routecls:"):]: v for k, v in agg.extra.items() if k.startswith("routecls:")})
-    ev.add_part(
-        "public_route", states=agg.extra["route_states"], transitions=agg.extra["route_transitions"],
-        validated=agg.extra["route_transitions"], nontrivial=sum(v for k, v in route_expected.items() if k not in ("route:agnostic", "route:ok")),
-        expected=route_expected, bound={"fragments": K, "max_fragments": L_route, "suffix": "{% bogus %}", "engines": ["debug", "non-debug"]},
-        samples=[{"src": A[7] + A[1] + A[8] + "{% bogus %}", "expect": "Invalid block tag on line 2: 'bogus'"}],
-    )
+    for part, kind, idxs, lo, hi in jobs:
+        pre = part + ":"
+        expected = Counter({k[len(pre) + 4:]: v for k, v in agg.extra.items() if k.startswith(pre + "cls:")})
+        bound = {"fragments": [FRAGMENT_NAMES[i] for i in idxs], "min_fragments": lo, "max_fragments": hi,
+                 "modes": ["multiline_tags=True", "multiline_tags=False (only sources containing a newline; the others lex identically)"]}
+        extra = None
+        samples = None
+        if kind == "lex":
+            extra = {"runs_with_two_or_more_quoted_tags": agg.extra[pre + "two_or_more_quoted_tags"]}
+            samples = agg.samples[:2] if part == "lexer" else None
+        else:
+            bound.update({"suffix": "{% bogus %}", "engines": ["debug", "non-debug"]})
+            samples = [{"src": A[7] + A[1] + A[8] + "{% bogus %}", "expect": "Invalid block tag on line 2: 'bogus'"}]
+        ev.add_part(
+            part, states=agg.extra[pre + "states"], transitions=agg.extra[pre + "transitions"], validated=agg.extra[pre + "transitions"],
+            nontrivial=agg.extra[pre + "nontrivial"], observed_distinct=sum(1 for o in agg.observed if o[0] == part),
+            expected=expected, bound=bound, samples=samples, extra=extra,
+        )
     ev.assumptions = [
         "Django 5.1 DebugLexer as installed is the stock lexer; tag_re is swapped in-process between its re.DOTALL and plain forms exactly as apps.py does for COMPONENTS.multiline_tags",
         "backslash escapes inside quoted strings are honoured by the reference (Django smart_split convention)",
         "multiline_tags=False with a quote-aware rescan crossing a newline, and tags the reference finds unterminated, are checked for clauses 1-3 only",
+        "states counts fragment sequences; the fragments are uniquely decodable, so these are distinct sources",
     ]
 
 
